@@ -487,7 +487,7 @@ func init() {
 	Register(&CheckDef{ID: "C25", Level: "fault_enumeration",
 		Rule:    "each unit = one (d,p) in {(1,1),(2,1),(2,2),(3,2),(4,2)} x one blob size in {0,1,d-1,d,d+1,1023,1024,1025,65539}; ALL subsets of the d+p shard files x damage kind (missing, truncated to 0/1/16/17/18 bytes/half, payload bit flip, metadata bit flip, both in one shard, first 40 bytes overwritten; each kind uniformly plus 3 PRNG-mixed assignments per subset) on fs.NewBlobStoreWithEC over real files; plus ALL subsets of failing shard writes on an Add call carrying 1-3 blobs. Oracle: <= p damaged => exact bytes; > p => error or exact bytes, never different bytes; any panic is a violation; Add fails iff more than p shard writes fail. distinct_nontrivial = distinct (d,p,size,damage/write pattern)",
 		Exhaust: "all shard subsets x uniform damage kinds for the listed (d,p) and sizes (mixed kinds are sampled)",
-		Units:   units, Run: runECUnit(false), Replay: replayEC,
+		Units:   units, Run: runECUnit(false), Replay: replayEC, UnitLimit: 1200e9,
 		Real:   []string{"fs.BlobStoreWithEC (Add, GetOne incl. shard metadata handling), fs/erasure (encode, decode, reconstruct), klauspost/reedsolomon"},
 		Stub:   []string{"TaskRunner concurrency (shard I/O tasks run inline, so a panic inside a shard task surfaces in the caller instead of killing the process)", "drives = directories on tmpfs"},
 		Assume: []string{"no schedule dimension: damage is applied between operations", "shard write failures are whole-file failures"}})
